@@ -196,7 +196,13 @@ def run(ctx):
         n5 += 1
         ctx.ob("C17.R5", fi, ok, "%s of %s does not depend on the absolute stream position (so parse_stream/build_stream at any starting offset behave like parse/build on a fresh stream)%s" % (what, q, "" if ok else ": " + N.show(v)[:120]),
                key=what, node=e.node)
-    ctx.floor("C17.R5", 50)
+    # ... and every absolute seek of the parse side goes to a position that was *recorded* on this stream (a tell, a table of tells, a loop-carried
+    # tell) or derived from one (tell + bytes read since): a bare number as an absolute target is only right for a stream that starts at 0
+    # (shared with C06.R6)
+    from . import C06 as _C06
+    for fi6, cls6 in protocol_functions(M, _C06.PARSE_SIDE):
+        _C06.check_seeks(ctx, fi6, cls6, rule="C17.R5")
+    ctx.floor("C17.R5", 60)
     # R6: the substreams of the delimiting wrappers translate positions by the outer offset of the region's first byte, in tell and in absolute
     # seeks only (shared with C08.R3) -- what makes constructs inside a region independent of where the region starts
     from . import C08
